@@ -669,6 +669,22 @@ func runC16RealClient(t *testing.T, rng *rand.Rand, rec *sim.Rec, tier string, c
 		Realm: "verif.test", Users: map[string]string{"alice": "pw-a"},
 		TCPListeners: []*net.TCPAddr{{IP: sim.ServerIP4, Port: 3478}},
 	}
+	// the relay sockets come from the harness' ledger generator or from one of the bundled ones
+	genKind := pick(rng, []string{"ledger", "static", "range", "none"})
+	grng := rand.New(rand.NewSource(rng.Int63()))
+	if genKind != "ledger" {
+		cfg.MakeGen = func(n *simnet.Net) turn.RelayAddressGenerator {
+			gvn := &simnet.VNet{N: n, HostIP4: sim.RelayIP4}
+			switch genKind {
+			case "static":
+				return &turn.RelayAddressGeneratorStatic{RelayAddress: sim.RelayIP4, Address: "0.0.0.0", Net: gvn}
+			case "range":
+				return &turn.RelayAddressGeneratorPortRange{RelayAddress: sim.RelayIP4, Address: "0.0.0.0", MinPort: 30000, MaxPort: 30040, MaxRetries: 50, Rand: &scriptRand{mode: "prng", rng: grng}, Net: gvn}
+			default:
+				return &turn.RelayAddressGeneratorNone{Address: sim.RelayIP4.String(), Net: gvn}
+			}
+		}
+	}
 	w, err := sim.NewWorld(cfg, rec, rng, true)
 	if err != nil {
 		t.Fatal(err)
@@ -767,7 +783,7 @@ func runC16RealClient(t *testing.T, rng *rand.Rand, rec *sim.Rec, tier string, c
 			time.Sleep(time.Second)
 			_ = pe.Close()
 			_ = l.Close()
-			rec.FP("client-tcp/dial")
+			rec.FP("client-tcp/dial/gen=%s", genKind)
 		} else {
 			// inbound: a permitted peer connects to the relayed address, the client accepts
 			if err := cl.CreatePermission(&net.TCPAddr{IP: peerIP, Port: 1}); err != nil {
@@ -797,7 +813,7 @@ func runC16RealClient(t *testing.T, rng *rand.Rand, rec *sim.Rec, tier string, c
 			_ = pe.Close()
 			time.Sleep(time.Second)
 			_ = ac.Close()
-			rec.FP("client-tcp/accept")
+			rec.FP("client-tcp/accept/gen=%s", genKind)
 		}
 	}
 	_ = alloc.Close()
@@ -805,5 +821,5 @@ func runC16RealClient(t *testing.T, rng *rand.Rand, rec *sim.Rec, tier string, c
 	if n := w.Srv.AllocationCount(); n != 0 {
 		rec.Violate("client-tcp", "close", "AllocationCount=%d after TCPAllocation.Close", n)
 	}
-	rec.SetSample(map[string]any{"kind": "real-client-rfc6062", "rounds": rounds})
+	rec.SetSample(map[string]any{"kind": "real-client-rfc6062", "rounds": rounds, "generator": genKind})
 }
